@@ -1421,3 +1421,21 @@ V("rf-c17-zip-folds-reversed", "C17", "fire", UT, _C17_H, "        for i, (fold,
   more=[(UT, _C17_D, "    folds = [[] for _ in range(n_folds)]\n"), (UT, _C17_A, "            fold.append(fold_sample)\n"), (UT, _C17_R, "    return folds\n")], rule="FLOW.destination", what="folds paired with the ratios in reverse")
 V("rf-c17-zip-folds-shared", "C17", "fire", UT, _C17_H, "        for i, (fold, ratio) in enumerate(zip(folds, ratios)):\n",
   more=[(UT, _C17_D, "    folds = [[]] * n_folds\n"), (UT, _C17_A, "            fold.append(fold_sample)\n"), (UT, _C17_R, "    return folds\n")], rule="FLOW.destination", what="one list shared by all folds")
+
+# ------------------------------------------------------------------------------- C15 separates: all pairs (refactor round 2)
+_C15_NL = "    for a in A:\n        for b in B:\n            for path in semi_directed_paths(a, b, G):\n                if set(path) & S == set():\n                    return False\n"
+V("rf-c15-product", "C15", "silent", UT, _C15_NL, "    for a, b in itertools.product(A, B):\n        for path in semi_directed_paths(a, b, G):\n            if set(path).isdisjoint(S):\n                return False\n", what="itertools.product instead of nested loops")
+V("rf-c15-zip-pairs", "C15", "fire", UT, _C15_NL, "    for a, b in zip(A, B):\n        for path in semi_directed_paths(a, b, G):\n            if set(path).isdisjoint(S):\n                return False\n", rule="SEP.paths", what="zip pairs the sources with the targets instead of trying all pairs")
+
+# ------------------------------------------------------------------------------- C15 semi_directed_paths with a deque (refactor round 2)
+def _c15_deque(push="            stack.appendleft((next_node, visited + [current_node], next_to_visit))\n", pop2="            stack.popleft()\n"):
+    return [(UT, "    stack = [(fro, [], list(ch(fro, A) | neighbors(fro, A)))]\n", "    import collections\n    stack = collections.deque([(fro, [], list(ch(fro, A) | neighbors(fro, A)))])\n"),
+            (UT, "            paths.append(visited + [current_node])\n            stack = stack[1:]\n", "            paths.append(visited + [current_node])\n            stack.popleft()\n"),
+            (UT, "        elif to_visit == []:\n            stack = stack[1:]\n", "        elif to_visit == []:\n" + pop2),
+            (UT, "            stack = [(next_node, visited + [current_node], next_to_visit)] + stack\n", push)]
+
+
+_e = _c15_deque()
+V("rf-c15-deque", "C15", "silent", *_e[0], more=_e[1:], what="deque with popleft / appendleft instead of list slicing")
+_e = _c15_deque(push="            stack.appendleft((next_node, visited, next_to_visit))\n")
+V("rf-c15-deque-visited-not-grown", "C15", "fire", *_e[0], more=_e[1:], rule="PATHS", what="deque form, visited does not grow")
